@@ -126,9 +126,10 @@ def audit(prop_modules):
         rc, out = sh(["lake", "env", "lean", tmp], cwd=LEAN, timeout=900)
     res = {}
     # output: "'name' depends on axioms: [a, b]" or "'name' does not depend on any axioms"
-    for m in re.finditer(r"'([^']+)' depends on axioms: \[([^\]]*)\]", out.replace("\n ", " ")):
+    # (names may end in primes: match up to the quote that is followed by the fixed text)
+    for m in re.finditer(r"'(\S+?)' depends on axioms: \[([^\]]*)\]", out.replace("\n ", " ")):
         res[m.group(1)] = [a.strip() for a in m.group(2).split(",") if a.strip()]
-    for m in re.finditer(r"'([^']+)' does not depend on any axioms", out):
+    for m in re.finditer(r"'(\S+?)' does not depend on any axioms", out):
         res[m.group(1)] = []
     missing = [t["name"] for t in thms if t["name"] not in res]
     return thms, res, missing, (out if rc != 0 or missing else "")
